@@ -91,7 +91,7 @@ G(c, slot) == [op |-> "Generate", b |-> 0, slot |-> slot, cmp |-> c]
 TokenScripts ==
   { << LoadOp(<<Priv(ka[1])>>), BNewOp, BSetKeyOp(ka[2], 0), CNewOp, CSetKeyOp(ka[2], 0),
        OpsOp(p1), G("t", 0), VerifyOp(SlotTok(0)), OpsOp(p2), G("t", 1), VerifyOp(SlotTok(0)), VerifyOp(SlotTok(1)), OpsOp(p1), VerifyOp(SlotTok(1)) >> :
-      ka \in Det, p1 \in Providers, p2 \in Providers }
+      ka \in Det \cup { <<AsymKey("rsa9216a", 0, NONE, NONE), "RS256">>, <<AsymKey("rsa9216a", 0, NONE, NONE), "RS512">> }, p1 \in Providers, p2 \in Providers }
 \* a private OKP JWK whose "x" member is the public half of ANOTHER key (a stale or copied x next to d): the key
 \* is its d - both providers sign with it, produce the same token, and verify each other's with the true public key
 XEd25519b == "lncoxKIi8P0R2As4v_fnOHXkHrxUnlWmIHXO0uvBEm0"
